@@ -511,6 +511,18 @@ def spec_sweep_one(row):
                     probs.append("list head changed although a predecessor exists")
             if out.post["sweep_prev"] != row.init["sweep_prev"]:
                 probs.append("sweep_prev changed while freeing")
+        # a released block must be gone from the list: otherwise a later sweep reads its header and the arena
+        # drop releases it a second time
+        if freed:
+            linked, cur, guard = set(), out.post["all"], 0
+            while cur is not None and cur not in linked and guard < 16:
+                linked.add(cur)
+                o = out.post["objs"].get(cur)
+                cur = o.get("next") if o else None
+                guard += 1
+            if x in linked or out.post["sweep_prev"] == x:
+                probs.append("[once] the released block is still linked in the all-list%s: a later sweep reads it and the "
+                             "arena drop releases it again" % (" (and is the sweep's predecessor)" if out.post["sweep_prev"] == x else ""))
         # (the unwind rows above carry the C11 obligations semantically: on the unwinding exit the object is already
         # unlinked / flagged not-live; statement order itself is not checked)
     return probs
